@@ -167,6 +167,11 @@ type World struct {
 	internalErr string
 	storeFaultsOn bool
 	vals    map[string]int // scratch for scenarios
+	fineNow   bool          // fine-grained thread exploration switched on (Scenario.Fine)
+	timedNow  bool          // timers strictly in deadline order from now on
+	noDevs    bool          // no deviations offered any more (faults stopped)
+	tvals     map[string]time.Duration
+	randExtra map[int]int64 // per node: answer of rand.Int63() (timeout jitter)
 }
 
 func (w *World) logf(f string, a ...any) {
@@ -328,7 +333,7 @@ func (w *World) nodeOfCur() *Node {
 
 func (w *World) Answer(node int, op string, mayFail bool) Fault {
 	n := w.nodes[node]
-	if w.sc.Devs&DevStore == 0 || !w.storeFaultsOn || !n.up || w.nodeOfCur() != n {
+	if w.noDevs || w.sc.Devs&DevStore == 0 || !w.storeFaultsOn || !n.up || w.nodeOfCur() != n {
 		return FaultNone
 	}
 	labels := []string{fmt.Sprintf("n%d %s ok", node, op), fmt.Sprintf("n%d %s crash-before", node, op), fmt.Sprintf("n%d %s crash-after", node, op), fmt.Sprintf("n%d %s error", node, op)}
@@ -764,7 +769,7 @@ func (w *World) envOptions() []envOpt {
 		if devs&DevTimer == 0 {
 			c = -1
 		}
-		if w.sc.Timed {
+		if w.sc.Timed || w.timedNow {
 			c = -1 // timed regime: strictly in deadline order, after the network is idle
 		}
 		addDef(envOpt{label: fmt.Sprintf("timer g%d %s +%v", tm.Group, tm.Owner, tm.Deadline), cost: c, do: func() { vtime.Fire(tm) }})
@@ -780,6 +785,9 @@ func (w *World) envOptions() []envOpt {
 	}
 	if len(def) == 0 {
 		return nil
+	}
+	if w.noDevs {
+		return def
 	}
 	return append(def, alts...)
 }
@@ -975,3 +983,11 @@ func safeWhen(f func(*World) bool, w *World) (ok bool) {
 	}()
 	return f(w)
 }
+
+// setFine switches fine-grained thread exploration on/off (only in scenarios with Fine set).
+func (w *World) setFine(on bool) {
+	w.fineNow = on
+	w.sched.Fine = on && w.sc.Fine
+}
+
+func (w *World) now() time.Duration { return w.sched.Now }
